@@ -440,7 +440,7 @@ def wrap_ufunc(
                 r = convert_nan(r)
         except FoundError as ex:
             r = ex.err
-        except (ValueError, TypeError):
+        except (ValueError, TypeError, AssertionError):  # Only this element.
             r = Error.errors['#VALUE!']
         return r
 
